@@ -13,7 +13,7 @@ def main(tier: str, seed: int) -> int:
                 'every string is fed to decompile_script under a watchdog: must terminate, listing-or-error must agree, the '
                 'listing must equal the specified one line by line, and compile(listing) must give the bytes back. The C11 '
                 'families (struct, operands) are replayed on the listing side too. traces: random / mutated strings up to 70 '
-                'KiB, every builder output and repository vector: termination, Decodes(b) <=> listing, compile(decompile(b)) = b '
+                'KiB, pushes and block bodies of exactly 2^7-1 .. 2^7+1, 2^8-1 .. 2^8+1, 2^15-1 .. 2^15+1, 2^16-2, 2^16-1 bytes, every builder output and repository vector: termination, Decodes(b) <=> listing, compile(decompile(b)) = b '
                 'judged by TLC.')
     rep.assumptions = ['termination is observed with a per-call watchdog (3 s for strings of <= 5 bytes, 20 s for large ones)']
     quick = tier == 'quick'
@@ -31,7 +31,7 @@ def main(tier: str, seed: int) -> int:
     with mp.get_context('fork').Pool(14) as pool:
         cases = [c for ch in pool.map(asmcheck._record_dis_chunk, jobs) for c in ch]
     # the corpus itself: every builder output and vector must round-trip
-    cases += asmcheck.record_dis(seed, 0, 0, [])
+    cases += asmcheck.boundary_dis_cases()
     ts = asmcheck._impl()
     for b in corpus:
         st, lines = asmcheck.with_timeout(lambda: ts.decompile_script(b), 20)
